@@ -92,6 +92,10 @@ def oracle(case, ob):
         return "the result is not a new dictionary"
     if ob["result"] != spec_merge(o, v) or trees.canon(ob["result"]) != trees.canon(spec_merge(o, v)):
         return "wrong merge result"
+    if ob.get("passed_through") is False:
+        return "a value of the result is a copy of the argument's value, not the value itself"
+    if ob.get("second_call_ok") is False:
+        return "a second call with the same (meanwhile changed) argument objects did not merge what they hold now"
     return None
 
 
